@@ -18,7 +18,7 @@ from concurrent.futures import ThreadPoolExecutor
 
 HERE = os.path.dirname(os.path.abspath(__file__))
 VERIF = os.path.dirname(HERE)
-REPO = '/repo'
+REPO = os.environ.get('COPIA_REPO', '/repo')
 
 
 def make_scratch(base, i):
@@ -57,11 +57,11 @@ def run_one(scratch, m):
     except LookupError as e:
         return m, [(p, False, -1, 'STALE: %s' % e) for p in m['props']]
     env = dict(os.environ, COPIA_REPO=repo, COPIA_VERIF_CACHE=os.path.join(scratch, 'cache'),
-               COPIA_VERIF_OUT=os.path.join(scratch, 'out'))
+               COPIA_VERIF_OUT=os.path.join(scratch, 'out'), VERIF_TIER='quick')
     res = []
     try:
         for prop in m['props']:
-            r = subprocess.run([os.path.join(VERIF, 'check'), prop], env=env, stdout=subprocess.PIPE,
+            r = subprocess.run([os.path.join(VERIF, 'check'), prop, '--tier', 'quick'], env=env, stdout=subprocess.PIPE,
                                stderr=subprocess.STDOUT, text=True)
             hit = [l for l in r.stdout.splitlines() if 'VIOLATION' in l or ': C' in l]
             keys = [l for l in r.stdout.splitlines() if m.get('expect', '') in l and not l.startswith('VIOLATION') and not l.startswith('KNOWN')]
@@ -71,6 +71,33 @@ def run_one(scratch, m):
         for p, s in saved.items():
             open(p, 'w').write(s)
     return m, res
+
+
+def run_for_property(prop, jobs=8):
+    """Used by the thorough tier: run every mutant of `prop`; -> (results list, stale count)."""
+    muts = [m for m in json.load(open(os.path.join(HERE, 'mutants.json'))) if prop in m['props']]
+    for m in muts:
+        m['props'] = [prop]
+    if not muts:
+        return [], 0
+    base = tempfile.mkdtemp(prefix='copia-mut.')
+    out = []
+    try:
+        jobs = min(jobs, len(muts)) or 1
+        scratches = [make_scratch(base, i) for i in range(jobs)]
+        chunks = [muts[i::jobs] for i in range(jobs)]
+
+        def worker(i):
+            return [run_one(scratches[i], m) for m in chunks[i]]
+        with ThreadPoolExecutor(jobs) as ex:
+            for res in ex.map(worker, range(jobs)):
+                for m, rr in res:
+                    for p, ok, rc, txt in rr:
+                        out.append({'id': m['id'], 'detected' if not m.get('benign') else 'silent': ok, 'rc': rc, 'benign': bool(m.get('benign')),
+                                    'stale': rc == -1})
+    finally:
+        shutil.rmtree(base, ignore_errors=True)
+    return out, sum(1 for o in out if o['stale'])
 
 
 def main():
